@@ -246,6 +246,18 @@ bool BlockHDF5::removeEntity(const nix::Identity &ident) {
         }
     }
 
+    // an alias range dimension is a hard link from dimensions/1 back to the array
+    // itself. It cannot be found any more once the array is unlinked and would keep
+    // the array alive (and its handles valid): remove it first.
+    if (ident.type() == ObjectType::DataArray && eg->hasGroup("dimensions")) {
+        H5Group dims = eg->openGroup("dimensions", false);
+        std::string eid;
+        eg->getAttr("entity_id", eid);
+        if (dims.hasGroup("1")) {
+            dims.openGroup("1", false).removeGroup(eid);
+        }
+    }
+
     // we get first "entity" link by name, but delete all others whatever their name with it
     std::string name;
     eg->getAttr("name", name);
